@@ -414,17 +414,15 @@ CLASSES = {
     "unit-value-in-if-arm-or-let":
         lambda e: e["kind"] == "panic" and in_file(e, BCGEN) and e["msg"].startswith("value none not found")
         and (e["stage"] == "emit_bytecode" or (e["stage"] == "emit_wasm" and has_staging_token(e["text"]))),
-    # F49: assignment whose target typing accepts but mirgen has no variable for
-    "assignment-target-not-a-variable":
-        lambda e: e["kind"] == "panic" and e["stage"] in EMIT and in_file(e, MIRGEN)
-        and ("Invalid assignment target" in e["msg"] or e["msg"].startswith("Expected record type for field access assignment")),
     # F50: mirgen::eval_expr infers the type of every expression AGAIN and panics on Err (and debug-asserts array element types):
     #      whatever the first pass did not see or judged differently ends here
     "mirgen-reinference-fails":
         lambda e: e["kind"] == "panic" and ((e["stage"] in EMIT and in_file(e, MIRGEN)
         and (e["msg"].startswith("type inference failed for expr") or e["msg"].startswith("assertion failed: tys.windows(2)")))
         or (e["stage"] == "emit_bytecode" and in_file(e, BCGEN) and has_default_param(e["text"])
-            and re.match(r"value extfun \S+ ! not found", e["msg"]) is not None)),
+            and re.match(r"value extfun \S+ ! not found", e["msg"]) is not None)
+        or (e["stage"] in EMIT and in_file(e, MIRGEN) and has_default_param(e["text"])
+            and e["msg"].startswith("Expected record type for field access assignment"))),
     # F54: the compiler executes macro-stage (stage-0) code on an internal VM: missing runtime externs, code built from a recovered AST,
     #      a macro stage that does not evaluate to code
     "stage0-vm-execution-panics":
@@ -449,10 +447,6 @@ CLASSES["fabricated-span-0-1-inside-multibyte-char"] = (
     and len(e["text"]) > 0 and len(e["text"][0].encode("utf-8")) > 1)
 
 
-CLASSES["recursive-type-alias-used"] = (
-    # F60: check_type_alias_cycles reports a cyclic alias but leaves it registered; resolve_type_alias follows aliases without a visited set
-    lambda e: e["kind"] == "abort" and e["stage"] in ("typecheck",) + EMIT and e.get("still_aborts_with_big_stack", False)
-    and "type" in toks_of(e["text"]) and "alias" in toks_of(e["text"]))
 CLASSES["delay-size-not-a-literal"] = (
     # F59: the maximum delay time must be a number literal; nothing checks it before mirgen
     lambda e: e["kind"] == "panic" and e["stage"] in EMIT and in_file(e, MIRGEN) and "unbounded delay access" in e["msg"]
